@@ -11,9 +11,10 @@ Statement (written by the verification team; the component has no listed propert
       nothing is written;
  (L1) after Stop returned, the instance's loop goroutine ends and writes nothing more;   (L2) Stop never blocks;
  (L3) an instance advertises its own configuration;   (L4) Handler6.Close ends the servers;   no call panics.
-The code contradicts (R1) for the M / O flags and the prefix attributes, (L2) at the third Stop, (L3) after a second Start and
-(L4): these are the known findings X06:FlagsIgnored, X06:PrefixAttributesIgnored, X06:StopBlocks, X06:SharedRouterRecord,
-X06:CloseLeavesServers (the package comment calls the server "INCOMPLETE and not working yet").  The specification records what the
+The code contradicts (R1) for the M / O flags and the prefix attributes, (L3) after a second Start and (L4): these are the open known
+findings X06:FlagsIgnored, X06:PrefixAttributesIgnored, X06:SharedRouterRecord, X06:CloseLeavesServers.  (L2) was contradicted at the
+third Stop of an instance until /repo 5a0211c (X06:StopBlocks, fixed: the constant StopNonBlocking of the specification follows the
+status of that entry, and a tree without the repair is reported with that key again) (the package comment calls the server "INCOMPLETE and not working yet").  The specification records what the
 code does at each site (mechanism level) next to the property-level value; the check reports a known finding when the real code
 behaves as recorded and DRIFT when it behaves as the statement asks.  Constants of the send function without a configuration input
 (CurHopLimit 64, router lifetime 30 min, DNSSL "lan" / 20 min, reachable / retransmit 0) are mechanism level: a difference is DRIFT.
@@ -47,9 +48,14 @@ SITE_WHAT = {
 MECH_HDR = {"curhop", "lifetime", "reach", "retrans", "prf"}
 
 
+def stop_nonblocking():
+    """Radvs' constant StopNonBlocking follows known finding X06:StopBlocks (fixed by /repo 5a0211c)."""
+    return xc.finding_fixed("X06:StopBlocks")
+
+
 def cfg_text(part, maxp=2, depth=0, inst=0, tick=False):
-    inv = "VecLemmas VecExport" if part == "vec" else "DepthOK BufOnlyWhenEnded LatestWins StopEndsLoop LifeExport LifeCfgExport"
-    return ("SPECIFICATION Spec\nCONSTANTS\n Part = \"%s\"\n MaxPrefixes = %d\n MaxDepth = %d\n MaxInst = %d\n WithTick = %s\nINVARIANTS %s\n%sCHECK_DEADLOCK FALSE\n" %
+    inv = "VecLemmas VecExport" if part == "vec" else "DepthOK BufOnlyWhenEnded LatestWins StopEndsLoop StopNeverBlocks LifeExport LifeCfgExport"
+    return ("SPECIFICATION Spec\nCONSTANTS\n StopNonBlocking = " + ("TRUE" if stop_nonblocking() else "FALSE") + "\n Part = \"%s\"\n MaxPrefixes = %d\n MaxDepth = %d\n MaxInst = %d\n WithTick = %s\nINVARIANTS %s\n%sCHECK_DEADLOCK FALSE\n" %
             (part, maxp, depth, inst, "TRUE" if tick else "FALSE", inv, "VIEW ViewLast\n" if part == "life" else ""))
 
 
@@ -138,6 +144,9 @@ def beh_judge(b, r, drift, sites_seen, cfgs):
                 drift("X06:stop:returns", "the third Stop of an instance returns (the specification records that it blocks)")
             continue
         if blocked:
+            n_stops = sum(1 for t in b["steps"][:n + 1] if t["a"] == "stop" and t["i"] == s["i"])
+            if n_stops >= 3:      # (L2) at the site of the former finding: the repair of /repo 5a0211c is missing
+                return "X06:StopBlocks", "%s: the third Stop of an instance has not returned by the end of the behaviour (blocking send on the stop channel)" % ctxt
             return "X06:stop:blocked", "%s: Stop has not returned by the end of the behaviour" % ctxt
         if a["res"] not in ("ok", "blocked"):
             return "X06:%s:res" % s["a"], "%s: the last call gave %s" % (ctxt, a["res"])
@@ -261,7 +270,7 @@ def run(ctx):
     distinct = {vlib.digest(v["cfg"]) for v in vecs} | {vlib.digest([[s["a"], s["x"], s["i"]] for s in b["steps"]]) for b in behs + ticks}
     cov.update({
         "states": states, "transitions": trans, "traces_validated_against_impl": n, "evaluations": n, "distinct_nontrivial": len(distinct),
-        "vectors": len(vecs), "behaviours": len(behs), "ticker_behaviours": len(ticks), "sites": sites_seen,
+        "stop_nonblocking_modelled": stop_nonblocking(), "vectors": len(vecs), "behaviours": len(behs), "ticker_behaviours": len(ticks), "sites": sites_seen,
         "vector_outcomes": {o: sum(1 for v in vecs if v["outcome"] == o) for o in ("sent", "silent", "error")},
         "rule": "one case = one configuration built on a real Handler6 (StartRADVS, SendRA, Stop; every frame decoded independently and compared "
                 "field by field with the reference record) or one sequence of Start / SendRA / Stop / router solicitation / Handler6.Close calls "
